@@ -147,7 +147,7 @@ void _ZNSt7__cxx1112basic_stringIcSt11char_traitsIcESaIcEEC2Ev(vstr *s) { vs_ini
 void _ZNSt7__cxx1112basic_stringIcSt11char_traitsIcESaIcEEC1Ev(vstr *s) { vs_init_empty(s); }
 #endif
 #ifdef DECL__ZNSt7__cxx1112basic_stringIcSt11char_traitsIcESaIcEEC2ERKS3_
-void _ZNSt7__cxx1112basic_stringIcSt11char_traitsIcESaIcEEC2ERKS3_(vstr *s, struct class_std__allocator *a) { vs_init_empty(s); }
+void _ZNSt7__cxx1112basic_stringIcSt11char_traitsIcESaIcEEC2ERKS3_(vstr *s, void *a) { vs_init_empty(s); }
 #endif
 #ifdef DECL__ZNSt7__cxx1112basic_stringIcSt11char_traitsIcESaIcEED2Ev
 void _ZNSt7__cxx1112basic_stringIcSt11char_traitsIcESaIcEED2Ev(vstr *s) { vs_dispose(s); }
@@ -156,11 +156,11 @@ void _ZNSt7__cxx1112basic_stringIcSt11char_traitsIcESaIcEED2Ev(vstr *s) { vs_dis
 void _ZNSt7__cxx1112basic_stringIcSt11char_traitsIcESaIcEED1Ev(vstr *s) { vs_dispose(s); }
 #endif
 #ifdef DECL__ZNSt7__cxx1112basic_stringIcSt11char_traitsIcESaIcEEC2EPKcRKS3_
-void _ZNSt7__cxx1112basic_stringIcSt11char_traitsIcESaIcEEC2EPKcRKS3_(vstr *s, u8 *p, struct class_std__allocator *a)
+void _ZNSt7__cxx1112basic_stringIcSt11char_traitsIcESaIcEEC2EPKcRKS3_(vstr *s, u8 *p, void *a)
 { if (!p) { __verif_throw(); return; } vs_construct(s, p, vs_strlen(p)); }
 #endif
 #ifdef DECL__ZNSt7__cxx1112basic_stringIcSt11char_traitsIcESaIcEEC2EPKcmRKS3_
-void _ZNSt7__cxx1112basic_stringIcSt11char_traitsIcESaIcEEC2EPKcmRKS3_(vstr *s, u8 *p, u64 n, struct class_std__allocator *a)
+void _ZNSt7__cxx1112basic_stringIcSt11char_traitsIcESaIcEEC2EPKcmRKS3_(vstr *s, u8 *p, u64 n, void *a)
 { vs_construct(s, p, n); }
 #endif
 #ifdef DECL__ZNSt7__cxx1112basic_stringIcSt11char_traitsIcESaIcEEC2ERKS4_
@@ -172,7 +172,7 @@ void _ZNSt7__cxx1112basic_stringIcSt11char_traitsIcESaIcEEC1ERKS4_(vstr *s, vstr
 #ifdef DECL__ZNSt7__cxx1112basic_stringIcSt11char_traitsIcESaIcEEC2EOS4_
 void _ZNSt7__cxx1112basic_stringIcSt11char_traitsIcESaIcEEC2EOS4_(vstr *s, vstr *o)
 {
-  if (vs_is_local(o)) { SP(s) = SLOCAL(s); for (int i = 0; i < 16; i++) SLOCAL(s)[i] = SLOCAL(o)[i]; }
+  if (vs_is_local(o)) { SP(s) = SLOCAL(s); memcpy(SLOCAL(s), SLOCAL(o), 16); }
   else { SP(s) = SP(o); SCAP(s) = SCAP(o); }
   SLEN(s) = SLEN(o);
   vs_init_empty(o);
@@ -337,7 +337,7 @@ void _ZNKSt7__cxx1112basic_stringIcSt11char_traitsIcESaIcEE6substrEmm(vstr *ret,
 }
 #endif
 #ifdef DECL__ZNKSt7__cxx1112basic_stringIcSt11char_traitsIcESaIcEE13get_allocatorEv
-void _ZNKSt7__cxx1112basic_stringIcSt11char_traitsIcESaIcEE13get_allocatorEv(struct class_std__allocator *r, vstr *s) { }
+void _ZNKSt7__cxx1112basic_stringIcSt11char_traitsIcESaIcEE13get_allocatorEv(void *r, vstr *s) { }
 #endif
 #ifdef DECL__ZNKSt7__cxx1112basic_stringIcSt11char_traitsIcESaIcEE7compareERKS4_
 u32 _ZNKSt7__cxx1112basic_stringIcSt11char_traitsIcESaIcEE7compareERKS4_(vstr *s, vstr *o)
